@@ -36,10 +36,11 @@ type Value struct {
 	S []uint16
 	O *Obj
 
-	// Wide marks a number the implementation under test is known to hold as a 64-bit integer beyond
-	// 2^53 (integer literal or Go integer handed in). It does not change the value; it only lets
-	// ToString raise HazWideText when the exact digits differ from the 9.8.1 text.
-	Wide bool
+	// Held is set for a number the implementation under test is known to hold as a 64-bit integer
+	// beyond 2^53 (integer literal or Go integer handed in): the decimal digits of that integer. It
+	// does not change the value; it only lets ToString raise HazWideText when those digits are not
+	// the 9.8.1 text of N.
+	Held string
 }
 
 func Undef() Value            { return Value{K: Undefined} }
@@ -70,8 +71,9 @@ const (
 
 // Method is one programmable conversion method.
 type Method struct {
-	Mode string
-	Ret  Value // for MPrim
+	Mode  string
+	Ret   Value // for MPrim
+	Quiet bool  // a built-in method (Number.prototype.valueOf, Array.prototype.toString, …): not logged
 }
 
 // Obj is an object operand.
@@ -87,6 +89,7 @@ type Obj struct {
 	Callable  bool            // has [[Call]] → typeof "function"; has [[HasInstance]] (15.3.5.3)
 	Props     map[string]bool // names for which [[HasProperty]] is true among the names the generator uses
 	Proto     *Obj            // [[Prototype]]
+	Bound     *Obj            // target function of a bound function (15.3.4.5)
 	ProtoProp *Value          // value of the own "prototype" property of a function
 }
 
@@ -97,13 +100,14 @@ type Throw struct{ Name string }
 // Hazards: named input classes in which otto is known to deviate for one recorded root cause.
 // The model raises them at the step where the root cause sits; the check maps them to finding ids.
 const (
-	HazToInt63     = "toint-beyond-2^63"        // ToInt32/ToUint32/ToUint16 of a finite |x| >= 2^63
-	HazStrOrder    = "string-order-utf16"       // string < string where code-unit order and code-point order disagree
-	HazLenientNum  = "tonumber-go-syntax"       // ToNumber of a string only Go's strconv accepts (inf, 1_0, 0x1.8p1, …)
-	HazHexOverflow = "tonumber-hex-2^63"        // ToNumber of a hex literal string with value >= 2^63
-	HazNumText     = "number-text-corner"       // ToString of a number whose text is a C06 matter (just below 1e21)
-	HazIndexName   = "non-canonical-index-name" // `in` on an Array/String object with a name like "01", "-0", "+1"
-	HazWideText    = "int64-held-number-text"   // ToString of a Wide number whose exact digits are not its 9.8.1 text
+	HazToInt63     = "toint-beyond-2^63"         // ToInt32/ToUint32/ToUint16 of a finite |x| >= 2^63
+	HazStrOrder    = "string-order-utf16"        // string < string where code-unit order and code-point order disagree
+	HazLenientNum  = "tonumber-go-syntax"        // ToNumber of a string only Go's strconv accepts (inf, 1_0, 0x1.8p1, …)
+	HazHexOverflow = "tonumber-hex-2^63"         // ToNumber of a hex literal string with value >= 2^63
+	HazNumText     = "number-text-corner"        // ToString of a number whose text is a C06 matter (just below 1e21)
+	HazIndexName   = "non-canonical-index-name"  // `in` on an Array/String object with a name like "01", "-0", "+1"
+	HazBoundInst   = "instanceof-bound-function" // object instanceof (bound function): 15.3.4.5.3 delegates to the target
+	HazWideText    = "int64-held-number-text"    // ToString of a number held as a 64-bit integer whose digits are not its 9.8.1 text
 )
 
 // Ctx carries the observable side effects of one evaluation.
@@ -146,7 +150,9 @@ func (c *Ctx) callMethod(o *Obj, name string, m Method) (v Value, done bool, t *
 	case MUndef, MNonCall, "":
 		return Value{}, false, nil
 	case MPrim:
-		c.log(o.ID + "." + name)
+		if !m.Quiet {
+			c.log(o.ID + "." + name)
+		}
 		return m.Ret, true, nil
 	case MObj:
 		c.log(o.ID + "." + name)
@@ -254,10 +260,8 @@ func (c *Ctx) ToString(v Value) ([]uint16, *Throw) {
 		if TextCorner(v.N) {
 			c.hazard(HazNumText)
 		}
-		if v.Wide {
-			if bi, _ := new(big.Float).SetFloat64(v.N).Int(nil); bi.String() != es5.NumberToString(v.N) {
-				c.hazard(HazWideText)
-			}
+		if v.Held != "" && v.Held != es5.NumberToString(v.N) {
+			c.hazard(HazWideText)
 		}
 		return units(es5.NumberToString(v.N)), nil
 	case String:
